@@ -77,7 +77,32 @@ func runC14(c *Ctx) {
 		acqs += flows[f].Acqs
 	}
 	c.R.RequireMin("R14.1", "lock acquisitions in stringclassifier", acqs, 6)
-	const muValues = "stringclassifier.Classifier.muValues"
+	// roles: the guarded map is the only map field of Classifier, its guard the only (RW)Mutex field, the
+	// lazily initialised field the only *searchset.SearchSet field of the map's element type
+	clsT := p.Named(scPkg, "Classifier")
+	if !c.R.Anchor(clsT != nil, "stringclassifier.Classifier") {
+		return
+	}
+	valuesField, ok1 := core.UniqueField(clsT, func(t types.Type) bool { _, isMap := t.Underlying().(*types.Map); return isMap })
+	muField, ok2 := core.UniqueField(clsT, func(t types.Type) bool {
+		return core.IsNamedType(t, "sync", "RWMutex") || core.IsNamedType(t, "sync", "Mutex")
+	})
+	if !c.R.Anchor(ok1 && ok2, "stringclassifier.Classifier: one map field guarded by one mutex field") {
+		return
+	}
+	var kvT types.Type
+	for i := 0; i < core.StructOf(clsT).NumFields(); i++ {
+		if f := core.StructOf(clsT).Field(i); f.Name() == valuesField {
+			kvT = f.Type().Underlying().(*types.Map).Elem()
+		}
+	}
+	setField, ok3 := core.UniqueField(kvT, func(t types.Type) bool { return core.IsNamedType(t, ssPkg, "SearchSet") })
+	if !c.R.Anchor(ok3, "the known-value type has one *searchset.SearchSet field") {
+		return
+	}
+	kvName := core.TypeName(kvT)
+	muValues := "stringclassifier.Classifier." + muField
+	lazySetField, guardedMapField = setField, valuesField
 
 	// ---- R14.1: Classifier.values ---------------------------------------------------
 	nAcc := 0
@@ -93,7 +118,7 @@ func runC14(c *Ctx) {
 		for _, b := range f.Blocks {
 			for _, in := range b.Instrs {
 				fa, ok := in.(*ssa.FieldAddr)
-				if !ok || core.FieldName(fa) != "values" || !strings.HasSuffix(core.TypeName(fa.X.Type()), "stringclassifier.Classifier") {
+				if !ok || core.FieldName(fa) != valuesField || !strings.HasSuffix(core.TypeName(fa.X.Type()), "stringclassifier.Classifier") {
 					continue
 				}
 				if isFreshBase(fa.X) {
@@ -181,7 +206,7 @@ func runC14(c *Ctx) {
 	}
 
 	// ---- R14.3: knownValue.set --------------------------------------------------------
-	checkLazySet(c, p, fns, flows, muValues)
+	checkLazySet(c, p, fns, flows, muValues, setField, kvName)
 
 	// ---- R14.4: queues in goroutines --------------------------------------------------
 	region := eng.ConcurrentRegion(fns)
@@ -321,10 +346,10 @@ func dependsOn(v, r ssa.Value, depth int) bool {
 }
 
 // checkLazySet: R14.3.
-func checkLazySet(c *Ctx, p *core.Prog, fns []*ssa.Function, flows map[*ssa.Function]*eng.LockFlow, mu string) {
+func checkLazySet(c *Ctx, p *core.Prog, fns []*ssa.Function, flows map[*ssa.Function]*eng.LockFlow, mu string, setField, kvName string) {
 	isSetAddr := func(v ssa.Value) (*ssa.FieldAddr, bool) {
 		fa, ok := v.(*ssa.FieldAddr)
-		if !ok || core.FieldName(fa) != "set" || !strings.HasSuffix(core.TypeName(fa.X.Type()), "stringclassifier.knownValue") {
+		if !ok || core.FieldName(fa) != setField || core.TypeName(fa.X.Type()) != kvName {
 			return nil, false
 		}
 		return fa, true
@@ -506,6 +531,8 @@ func behindInit(p *core.Prog, fn *ssa.Function, at ssa.Instruction, prm *ssa.Par
 }
 
 // checkV1SharedWrites: R14.5. E1 over the v1 entry points with goroutines followed.
+var lazySetField, guardedMapField string
+
 func checkV1SharedWrites(c *Ctx, p *core.Prog) {
 	type root struct {
 		pkg, name string
@@ -520,10 +547,10 @@ func checkV1SharedWrites(c *Ctx, p *core.Prog) {
 	}
 	allowed := func(v *eng.EffViolation) bool {
 		// guarded writes validated by R14.1..R14.3
-		if strings.Contains(v.Construct, "store field stringclassifier.knownValue.set") {
+		if v.Kind == "store" && strings.HasSuffix(v.Construct, "."+lazySetField) && strings.Contains(v.Construct, "store field stringclassifier.") {
 			return true
 		}
-		if strings.Contains(v.Construct, "(*stringclassifier.Classifier).AddValue: mapupdate field stringclassifier.Classifier.values") {
+		if v.Kind == "mapupdate" && strings.Contains(v.Construct, "AddValue: mapupdate field stringclassifier.Classifier."+guardedMapField) {
 			return true
 		}
 		return false
